@@ -243,6 +243,30 @@ def mode_a_syntax(tier, wd):
             g, d = common.tlc_counts(out)
             gs += g
             ds += d
+    # the tokenizer: character-level algorithm vs word-based lexical grammar, all strings up to LL characters
+    # plus the ASCII part of the generated strings
+    LL = 5 if tier == "thorough" else 4
+    lparts = 26 if tier == "thorough" else 8
+    strs = [s for s in synprops.random_strings(random.Random(7), 4000 if tier == "thorough" else 800) if s.isascii() and "\r" not in s]
+
+    def cls(ch):
+        return "n" if (ch.isalnum() or ch == "_") else ("s" if ch in " \t\n\x0b\x0c" else "o")
+    sf = os.path.join(wd, "lex-strings.json")
+    json.dump([[{"c": ch, "k": cls(ch)} for ch in s] for s in strs], open(sf, "w"))
+
+    def lone(part):
+        env = {"LEX_L": str(LL), "PARTS": str(lparts), "PART": str(part)}
+        if part == 0:
+            env["STRFILE"] = sf
+        return common.run_tlc("MC_Lex.tla", "MC_Lex.cfg", os.path.join(wd, "meta-lex-%d" % part), env=env, timeout=3400, xmx="4g")
+
+    with concurrent.futures.ThreadPoolExecutor(max_workers=common.NPROC) as ex:
+        for out, rc, wall in ex.map(lone, range(lparts)):
+            if "No error has been found" not in out:
+                raise ToolError("MC_Lex: the tokenizer algorithm model and the lexical grammar disagree (design-level counterexample):\n" + out[-3000:])
+            g, d = common.tlc_counts(out)
+            gs += g
+            ds += d
     return gs, ds, L
 
 
@@ -254,7 +278,7 @@ def run_c05(tier, seed, replay):
         wd_a = common.workdir("C05-%s-model" % tier)
         g, d, L = mode_a_syntax(tier, wd_a)
         extra_a = {"mode_A_syntax": {"module": "spec/MC_Syntax.tla", "token_sequences": d, "max_length": L,
-                                     "invariant": "ImplParse = Parse; accepted trees re-parse to themselves from their token rendering"},
+                                     "invariant": "MC_Syntax: ImplParse = Parse, accepted trees re-parse to themselves from their token rendering; MC_Lex: ImplLex = Lex on all strings up to 4 / 5 characters over a 26-character alphabet plus generated ASCII strings, both languages"},
                    "_add": (d, g)}
     if replay:
         items = json.load(open(replay))["items"]
